@@ -16,7 +16,8 @@ CLAIMED = {
                 "the public ncmpi_* wrapper. This is the structural clause 'no I/O failure is dropped'; it does not "
                 "decide which NC code is returned nor faults inside open/close/set_view.",
         "note": "Assumes allocations and MPI communication calls succeed; NC error codes negative (MPI_MIN "
-                "reductions keep failures); zero-length participation calls are informational; callee summaries: "
+                "reductions keep failures); a zero-length participation in a collective is a site like any other "
+                "(found and fixed: F-C11-14..17); callee summaries: "
                 "ncmpii_error_mpi2nc is non-zero (re-verified by rule R1.map).",
         "design_ref": "DESIGN.md section 3 / C11, rule R1",
     },
@@ -33,7 +34,10 @@ CLAIMED = {
                 "calls the name-matched converter, is total, applies the NC_BYTE/uchar exemption exactly for "
                 "format < 5, and that ncmpio_pack_xbuf passes the variable's own fill value. The code's behaviour is "
                 "piecewise constant between compared constants, so this is exhaustive, not sampled. Known deviations "
-                "(NaN, +-Inf, 2^63/2^64) are listed findings.",
+                "(NaN, +-Inf, 2^63/2^64) are listed findings. For 'all other elements of the same call are still "
+                "transferred': at each of the ~265 sites where a write is packed or posted (ncmpio_pack_xbuf, the iput/bput "
+                "entry points, driver slots) the function is explored once with the status NC_NOERR and once with NC_ERANGE; "
+                "the possible next calls / exits (with the constants stored on the way) must be the same.",
         "note": "Analysed build only (LP64, little endian, ERANGE_FILL). Same-type fast paths (memcpy/byte swap) are "
                 "not value-checked. 'Representable' is defined by the checker from the netCDF type table and IEEE-754.",
         "design_ref": "DESIGN.md section 3 / C09, rules R8, R10",
@@ -184,7 +188,8 @@ CLAIMED = {
                 "object pointer arrays the destructors walk are zero-initialised or counted cell by cell; every attribute "
                 "element count the reader accepts has an external size below 2^63 (hdr_get_NC_attr evaluated for every "
                 "version x type x a dictionary of extreme words); the intra-node aggregation groups and the copy of their "
-                "rank ids stay inside the node's rank list (bounded). It "
+                "rank ids stay inside the node's rank list (bounded); the header chunk reader turns a read of nothing into an "
+                "error and agrees on the read status whenever there is more than one process. It "
                 "does not decide absence of undefined behaviour in general, typed access to byte-sliced buffers, or "
                 "resource proportionality; 7 oversized functions are outside the release analysis (frozen list).",
         "note": "field identities from clang; LATER table: NC_var.len (dead), NC_var.begin (ncmpio_NC_check_voffs).",
@@ -255,8 +260,13 @@ CLAIMED = {
                 "64-bit difference; that type_create_subarray64, interpreted with the MPI type constructors "
                 "replaced by their definitions over explicit type maps, builds exactly the type map, lower bound and "
                 "extent of MPI_Type_create_subarray when a dimension exceeds 2^31-1 (bounded family of requests). "
-                "Correctness of the layout decision over all variable sequences is not decided; the intra-node aggregation layer is outside the narrowing rule.",
-        "note": "LP64 build; guard recognition is syntactic-structural (dominating comparison on the same expression text).",
+                "Two whole-function bounded evaluations: ncmpio_NC_check_vlens decides every list of up to 4 variables (fixed / "
+                "record, small / too large, 3 formats) as the format rule does, and every layout NC_begins accepts for lists "
+                "of up to 3 variables with lengths up to 2^63-8 (unbounded integers in the analyser) has non-negative, "
+                "representable, ordered, non-overlapping begins. Data placement at run time is not decided; the intra-node "
+                "aggregation layer is outside the narrowing rule.",
+        "note": "LP64 build; guard recognition is syntactic-structural (dominating comparison on the same expression text). "
+                "Found and fixed: F-C18-1 (63-bit overflow of the running offset in NC_begins).",
         "design_ref": "DESIGN.md section 3 / C18, rules R10, R12",
     },
     "C10": {
@@ -352,9 +362,13 @@ CLAIMED = {
                 "dimension (bounded); ncoffsets' own parser also equals the specification grammar; the validator "
                 "accepts a type code exactly when the format version allows it, and a non-zero verdict (fatal or "
                 "NC_ENULLPAD) of any of its parser/check functions reaches the exit status even if a later "
-                "iteration succeeds. NOT decided: the validator's other semantic checks, ncmpidump/ncmpigen output, "
+                "iteration succeeds; a modulo / division by an object count (attributes, dimensions, variables of the other "
+                "file) is reached only with a positive count; a diff tool that reads numrecs from the headers compares the two "
+                "counts; record r of a variable is addressed at begin + r * (the file's record size) in the tools and the "
+                "library (7 sites). NOT decided: the validator's other semantic checks, ncmpidump/ncmpigen output, "
                 "tolerance arithmetic.",
-        "note": "Found and fixed: ncmpidiff had no NC_BYTE case in its three dispatches (F-C20-1..3).",
+        "note": "Found and fixed: ncmpidiff had no NC_BYTE case in its three dispatches (F-C20-1..3); cdfdiff SIGFPE and "
+                "missing record-count comparison (F-C20-4, -5).",
         "design_ref": "DESIGN.md section 3 / C20",
     },
     "C12": {
